@@ -10,71 +10,44 @@ use std::str::Chars;
 pub fn wildcard_match(wild: &str, tame: &str) -> bool {
     let mut wild_iter: Peekable<Chars> = wild.chars().peekable();
     let mut tame_iter: Peekable<Chars> = tame.chars().peekable();
-    let mut after_last_wild: Option<Peekable<Chars>> = None;
+
+    // The positions to return to when a mismatch is found: immediately after the last wildcard character in the wild string,
+    //   and the position in the tame string from which that wildcard's remainder was last tried.
+    let mut backtrack: Option<(Peekable<Chars>, Peekable<Chars>)> = None;
 
     loop {
-        let tame_char = tame_iter.peek().copied();
-        let wild_char = wild_iter.peek().copied();
-
-        if tame_char.is_none() {
-            // If the tame string is finished and so far matches
-
-            if wild_char.is_none() {
-                // If there are no more characters to match in the wild string, they are identical
-                // For example "abc" matches "abc"
-                return true;
-            } else if wild_char == Some('*') {
-                // If the wild string still has a wildcard character, this could match zero characters
-                // Move on to the next wildcard character and run this section again since `tame_char` will still be `None`
-                // For example, "abc" matches "abc*"
+        match (wild_iter.peek().copied(), tame_iter.peek().copied()) {
+            // A wildcard character initially matches zero characters, so store the positions after it
+            // This is needed in cases such as "abcd" matching "a*d"
+            (Some('*'), _) => {
                 wild_iter.next();
-                continue;
+                backtrack = Some((wild_iter.clone(), tame_iter.clone()));
             }
 
-            // If the tame string is finished but the wild string continues with non-wildcard characters, they do not match
-            // For example, "abc" does not match "abcdef"
-            return false;
-        } else {
-            // If the tame string has more characters
+            // If both strings are finished and so far match, they match
+            // For example "abc" matches "abc" and "abc*"
+            (None, None) => return true,
 
-            if tame_char != wild_char {
-                // If the tame character and the wild character do not match, the only way they can be identical is if there
-                //   was previously or is currently a wildcard character
-                // For example, "abcd" matches "abc*" and "a*"
-                if wild_char == Some('*') {
-                    // If the wild character is a wildcard character, store the position after it
-                    // This is needed in cases such as "abcd" matching "a*d"
-                    wild_iter.next();
-                    after_last_wild = Some(wild_iter.clone());
-                    continue;
-                } else if let Some(after_last_wild_iter) = &after_last_wild {
-                    // If there is not a new wildcard character, but there has previously been one, move the iterator to
-                    //   immediately after the last wildcard character, and store the next character.
-                    wild_iter = after_last_wild_iter.clone();
-                    let wild_char = wild_iter.peek().copied();
+            // If the characters are identical, move on to the next ones
+            (Some(wild_char), Some(tame_char)) if wild_char == tame_char => {
+                wild_iter.next();
+                tame_iter.next();
+            }
 
-                    if wild_char.is_none() {
-                        // If there are no more wild characters, this means that the last character of the wild string was a
-                        //   wildcard character and the strings matched up to that point. Therefore, the strings match.
-                        // For example, "abcd" matches "a*"
-                        return true;
-                    } else if tame_char == wild_char {
-                        // If the characters do match, the end of the wildcard segment must have been reached, so increment the
-                        //   iterator.
-                        wild_iter.next();
+            // Otherwise, the only way the strings can match is if the last wildcard character matches one more character
+            //   of the tame string than has been tried so far
+            // For example, "aaab" matches "*aab" only if the wildcard matches the first "a"
+            _ => match &mut backtrack {
+                Some((wild_backtrack, tame_backtrack)) => {
+                    if tame_backtrack.next().is_none() {
+                        return false;
                     }
 
-                    tame_iter.next();
-                    continue;
-                } else {
-                    // If the characters do not match, are not wildcard, do not follow a wildcard, and do not complete a wildcard
-                    //   segment, then the strings do not match.
-                    return false;
+                    wild_iter = wild_backtrack.clone();
+                    tame_iter = tame_backtrack.clone();
                 }
-            }
+                None => return false,
+            },
         }
-
-        tame_iter.next();
-        wild_iter.next();
     }
 }
